@@ -383,6 +383,13 @@ class SigmaDetection(ParentChainMixin):
         if self_detection_item_types == {
             SigmaDetection
         }:  # if the items are SigmaDetections, they originate from a list and therefore must not be merged.
+            if self.item_linking is ConditionAND and len(detection_items) > 1:
+                # A list of detections is OR-linked. AND-linked detections (created by
+                # transformations) can't be expressed as a data structure.
+                raise sigma_exceptions.SigmaValueError(
+                    "Can't convert detection into plain value because it contains AND-linked detections.",
+                    source=self.source,
+                )
             return detection_items
         else:  # SigmaDetectionItems must be merged into a dict, where they originally were created from.
             detection_items_types = {  # create set of types for decision what has to be returned
@@ -395,6 +402,10 @@ class SigmaDetection(ParentChainMixin):
                 )
             if len(detection_items) == 1:  # Only one detection item? Return it as result.
                 return detection_items[0]
+            elif self.item_linking is ConditionOR and detection_items_types == {dict}:
+                # OR-linked detection items (created by transformations) can't be merged into
+                # one map because its items are AND-linked. A list of maps expresses the OR.
+                return detection_items
             else:  # More than one detection item, it depends now on the types
                 if dict in detection_items_types and len(detection_items_types) > 1:
                     # Merging dicts with other types isn't possibly, at least not in a simple way.
